@@ -191,6 +191,9 @@ EXTRA = {
 }
 for _k, _v in EXTRA.items():
     CHECKS[_k]['text'] = CHECKS[_k]['text'] + _v
+# batch 11: integral curves are also delivered to the real code as int64 arrays (byte-count magnitudes included), references keep the float64 copy
+for _k in ('C02', 'C03', 'C08', 'C09', 'C10', 'C12', 'C13', 'C14', 'C15', 'C16', 'C18', 'C19'):
+    CHECKS[_k]['note'] = CHECKS[_k]['note'] + ' Integral curves are also run as int64 arrays (small abscissae, heights up to byte-count size, DESIGN section 4 "domain decisions"); oracles and references stay on the float64 copy.'
 for p in props:
     i = p['id']
     if i in CHECKS:
